@@ -25,12 +25,18 @@ pub enum REv {
     Error,
     TimedOut,
     Eof,
+    /// the reader itself reads and writes a frame on another stream before it answers (a sniffer, a loop-back
+    /// port driving its peer): `Frame::read` / `Frame::write` are re-entered on this thread; then "interrupted"
+    Nested,
 }
 #[derive(Clone, Debug)]
 pub enum WEv {
     Accept(usize),
     Interrupted,
     Error,
+    /// from now on the port's `flush()` fails (the library never needs flush; one that calls it must not
+    /// let its failure change anything that was promised about the write that already happened)
+    FlushFails,
 }
 
 pub fn parse_revs(toks: &[&str]) -> Option<VecDeque<REv>> {
@@ -40,6 +46,7 @@ pub fn parse_revs(toks: &[&str]) -> Option<VecDeque<REv>> {
             "e" => Some(REv::Error),
             "t" => Some(REv::TimedOut),
             "z" => Some(REv::Eof),
+            "n" => Some(REv::Nested),
             _ => t.strip_prefix("d:").and_then(parse_hex).map(REv::Data),
         })
         .collect()
@@ -49,6 +56,7 @@ pub fn parse_wevs(toks: &[&str]) -> Option<VecDeque<WEv>> {
         .map(|t| match *t {
             "i" => Some(WEv::Interrupted),
             "e" => Some(WEv::Error),
+            "F" => Some(WEv::FlushFails),
             _ => t.strip_prefix("a:").and_then(|n| n.parse().ok()).map(WEv::Accept),
         })
         .collect()
@@ -100,6 +108,15 @@ impl Read for ScriptReader {
                 Some(REv::Interrupted) => break Err(io::Error::new(io::ErrorKind::Interrupted, "scripted interrupt")),
                 Some(REv::Error) => break Err(io::Error::new(io::ErrorKind::Other, "scripted error")),
                 Some(REv::TimedOut) => break Err(io::Error::new(io::ErrorKind::TimedOut, "scripted timeout")),
+                Some(REv::Nested) => {
+                    let mut inner = ScriptReader::new(VecDeque::from(vec![REv::Data(b":01000302FFFB\r\n".to_vec())]));
+                    let f = Frame::read(&mut inner).expect("nested read of a valid frame");
+                    let mut sink: Vec<u8> = vec![];
+                    f.write(&mut sink).expect("nested write to a vector");
+                    assert_eq!(sink, b":01000302FFFB\r\n".to_vec(), "nested write");
+                    let _ = Frame::from_bytes(&sink).expect("nested decode");
+                    break Err(io::Error::new(io::ErrorKind::Interrupted, "scripted interrupt after nested use"));
+                }
                 Some(REv::Data(d)) => {
                     if d.is_empty() {
                         continue;
@@ -124,6 +141,7 @@ impl Read for ScriptReader {
 
 #[derive(Debug)]
 pub struct ScriptWriter {
+    pub flush_fails: bool,
     pub events: VecDeque<WEv>,
     pub delivered: Vec<u8>,
     pub calls: usize,
@@ -132,6 +150,7 @@ pub struct ScriptWriter {
 impl ScriptWriter {
     pub fn new(events: VecDeque<WEv>) -> Self {
         ScriptWriter {
+            flush_fails: false,
             events,
             delivered: vec![],
             calls: 0,
@@ -149,8 +168,12 @@ impl Write for ScriptWriter {
                 std::thread::sleep(Duration::from_millis(ms));
             }
         }
+        while let Some(WEv::FlushFails) = self.events.front() {
+            let _ = self.events.pop_front();
+            self.flush_fails = true;
+        }
         let r = match self.events.pop_front() {
-            None => {
+            None | Some(WEv::FlushFails) => {
                 self.delivered.extend_from_slice(buf);
                 Ok(buf.len())
             }
@@ -166,7 +189,11 @@ impl Write for ScriptWriter {
         r
     }
     fn flush(&mut self) -> io::Result<()> {
-        Ok(())
+        if self.flush_fails {
+            Err(io::Error::new(io::ErrorKind::Other, "scripted flush failure"))
+        } else {
+            Ok(())
+        }
     }
 }
 
@@ -266,7 +293,7 @@ impl Write for MockPort {
         self.wr.write(buf)
     }
     fn flush(&mut self) -> io::Result<()> {
-        Ok(())
+        self.wr.flush()
     }
 }
 thread_local! {
@@ -571,7 +598,9 @@ pub fn serial_multi_once(msgs: &[Message<'static>], rd: VecDeque<REv>, wr: VecDe
         let mut evs = vec![];
         let wrote = p.wr.times.len() > w0;
         let read = p.rd.times.len() > r0;
-        let wrote_ok = wrote && !(matches!(&r, Err(_)) && !read);
+        // the write succeeded iff the whole encoding reached the port (whatever the call returns afterwards:
+        // an implementation may report a later failure, e.g. of flush(), although the frame is on the wire)
+        let wrote_ok = wrote && p.wr.delivered.len() - d0 == Frame::from(m.clone()).to_bytes_with_newline().len();
         if wrote {
             evs.push(format!("W:{}:{}", to_hex(&p.wr.delivered[d0..]), if wrote_ok { 1 } else { 0 }));
         }
@@ -755,11 +784,16 @@ pub fn port_case(kind: &str, prior: PortSettings, fail: FailAt) -> Option<String
     } else if let Some(ms) = kind.strip_prefix("cfg:") {
         let mut port = port;
         flipdot_serial::configure_port(&mut port, Duration::from_millis(ms.parse().ok()?)).is_ok()
+    } else if let Some(ns) = kind.strip_prefix("cfgn:") {
+        // the caller's timeout in nanoseconds (sub-millisecond and odd values; applied as given, observed in nanoseconds)
+        let mut port = port;
+        flipdot_serial::configure_port(&mut port, Duration::from_nanos(ns.parse().ok()?)).is_ok()
     } else {
         return None;
     };
     let d = dev.borrow();
     let t = match d.timeout {
+        Some(t) if kind.starts_with("cfgn:") => format!("{}ns", t.as_nanos()),
         Some(t) => t.as_millis().to_string(),
         None => "-".to_string(),
     };
